@@ -56,8 +56,12 @@ def servable_name(name, toplevel=True, full=False):
             return False
     if _IGN.search("/" + name):
         return False
+    if name.startswith("URL:"):
+        return False
+    if full and ("|" in name or "?" in name):
+        return False
     if toplevel:
-        if name.startswith("URL:") or name.lower().startswith("wap") or \
+        if name.lower().startswith("wap") or \
                 name.startswith("PYGOPHERD-HTTPPROTO-ICONS") or name.startswith("GEMINI-QUERY"):
             return False
         if full and len(name) == 1:
